@@ -8,7 +8,7 @@ from .. import AnalysisError
 from ..cfg import CFG, Node, describe_path, no_exc
 from ..effects import CONST, FRESH, SELF, Eff
 from ..program import FuncInfo, ancestors, enclosing_stmt, norm, parent, walk_local
-from .common import sub_nodes
+from .common import same_key_rebuild, sub_nodes
 
 EXPLANATION = (
     "Decided for all paths of every function that touches them: (backref) adding/removing a metabolite or gene "
@@ -230,6 +230,8 @@ def _classify_forward_write(ctx, fn: FuncInfo, e: Eff) -> str:
                 return "init" if fn.name in ("__init__",) else "rebind"
             if isinstance(v, ast.Call) and isinstance(v.func, ast.Name) and v.func.id in ("set", "dict") and not v.args:
                 return "init" if fn.name in ("__init__",) else "rebind"
+            if same_key_rebuild(fn, t, v):
+                return "samekeys"
             if isinstance(v, ast.DictComp) and len(v.generators) == 1:
                 gen = v.generators[0]
                 it = gen.iter
